@@ -5,6 +5,7 @@ use std::collections::{BTreeMap, HashSet};
 pub mod c02;
 pub mod c04;
 pub mod c07;
+pub mod c09;
 pub mod c11;
 pub mod c12;
 pub mod c16;
@@ -81,6 +82,7 @@ pub fn generate(prop: &str, tier: &str, g: &mut Gen) {
         "C04" => c04::generate(g, thorough),
         "C07" => c07::generate(g, thorough),
         "C08" => grid::generate_c08(g, thorough),
+        "C09" => c09::generate(g, thorough),
         "C15" => grid::generate_c15(g, thorough),
         "C11" => c11::generate(g, thorough),
         _ => {}
